@@ -481,7 +481,9 @@ func (t *State) PlayAndRepost(blockid []byte, needRepost bool, isRootTx bool) (p
 	for idx := 0; idx < len(block.Transactions); idx++ {
 		tx := block.Transactions[idx]
 		txid := string(tx.Txid)
-		if unconfirmToConfirm[txid] == false { // 本地没预执行过的Tx, 从block中收到的，需要Play执行
+		// 本地没预执行过的Tx, 从block中收到的，需要Play执行;
+		// 本地预执行过、但作为被回滚的未确认交易的子交易一起回滚掉了的Tx, 也要重新执行, 否则区块确认了它而它的效果却丢了
+		if unconfirmToConfirm[txid] == false || undoDone[txid] {
 			cacheFiller := &utxo.CacheFiller{}
 			err := t.doTxInternal(tx, batch, cacheFiller)
 			if err != nil {
@@ -1377,8 +1379,10 @@ func (t *State) processUnconfirmTxs(block *pb.InternalBlock, batch kvdb.Batch, n
 			localVersion := xmodel.MakeVersion(txInputExt.RefTxid, txInputExt.RefOffset)
 			remoteVersion := keysVersionInBlock[string(bucketAndKey)]
 			if localVersion != remoteVersion && remoteVersion != "" {
-				txidInVer := xmodel.GetTxidFromVersion(remoteVersion)
-				if _, known := unconfirmTxMap[string(txidInVer)]; known {
+				// 读到的版本不是区块写下的最后版本: 只有当它是由另一笔仍未确认(不在区块里)的交易写的, 这次读取才依然有效
+				// (那笔交易自己会被检查, 它被回滚时本交易作为子交易一起回滚)。否则读到的版本已被区块里的交易覆盖, 必须回滚
+				_, writerPending := unconfirmTxMap[string(txInputExt.RefTxid)]
+				if writerPending && !txidsInBlock[string(txInputExt.RefTxid)] {
 					continue
 				}
 				t.log.Warn("inputs version conflict", "key", bucketAndKey, "localVersion", localVersion, "remoteVersion", remoteVersion)
